@@ -14,6 +14,8 @@
 (*                            >1024 bytes of padding and a user tail       *)
 (*   userlink                 the user's: a symbolic link to a script kept *)
 (*                            elsewhere (link and script must both stay)   *)
+(*   useroff                  the user's: a script switched off for now    *)
+(*                            with chmod -x (bytes and mode must both stay)*)
 (* a configuration key is unset, cur(rent), old (a value an earlier        *)
 (* release wrote), skip (the --skip-smudge form) or custom.                *)
 (* The specification gives, per step, the set of classes each hook and key *)
@@ -24,8 +26,8 @@ EXTENDS Integers, Sequences, FiniteSets, TLC, Json, CSV, IOUtils
 
 CONSTANTS Hooks, Keys, Scopes, MaxOps, MaxVaried, Emit
 
-HookClasses == {"absent", "empty", "current", "old", "indented", "user", "userlfs", "lfspadtail", "userlink"}
-UserOwned   == {"user", "userlfs", "lfspadtail", "userlink"}
+HookClasses == {"absent", "empty", "current", "old", "indented", "user", "userlfs", "lfspadtail", "userlink", "useroff"}
+UserOwned   == {"user", "userlfs", "lfspadtail", "userlink", "useroff"}
 Generated   == {"current", "old", "indented"}
 CfgClasses(k) == IF k = "smudge" \/ k = "process" THEN {"unset", "cur", "old", "skip", "custom"}
                  ELSE IF k = "clean" THEN {"unset", "cur", "old", "custom"} ELSE {"unset", "cur", "custom"}
@@ -57,7 +59,7 @@ HookAfterInstall(v, force) == IF force THEN "current" ELSE IF v \in UserOwned TH
 \* a conflict must be reported when a hook is the user's and does not already run git-lfs in
 \* the generated way; "lfspadtail" starts with the complete generated text, so leaving it alone
 \* silently is as good as reporting it (what matters there is that it is never overwritten or deleted)
-HookConflict(h) == \E x \in Hooks : h[x] \in {"user", "userlfs", "userlink"}
+HookConflict(h) == \E x \in Hooks : h[x] \in {"user", "userlfs", "userlink", "useroff"}
 
 Install(sc, force, skip) ==
   LET cconf == ~force /\ CfgConflict(cfg[sc], skip)
